@@ -43,6 +43,7 @@ LAYOUTS = [
     {"name": "three-apps", "apps": [(4, "auth", [0], None), (3, "acct", [0, 1], None),
                                     (16777251, "auth", [1], ["extra.example"])]},
     {"name": "mixed-case-realm", "apps": [(4, "auth", [0], ["Roaming.Example"]), (3, "acct", [1], None)]},
+    {"name": "two-peers-extra-realms", "apps": [(4, "auth", [0, 1], ["extra.example", "Roaming.Example"]), (3, "acct", [1, 0], ["extra.example"])]},
 ]
 PEER_REALMS = ["example", "example"]
 
@@ -424,6 +425,19 @@ def shard_main(shard, nshards, tier, scale):
                         record(rec, case, res)
                 hyp.run_given(full_spec_strategy(k), ebody, 1, derive_seed(PID, "eg", k.__name__, layout, sender), rec=rec)
 
+    # an application with several peers and additional realms: every (sender, realm, application id)
+    for k in classes[shard::nshards]:
+        def xbody(spec, k=k):
+            for sender in ("peer1.example", "peer2.example"):
+                for realm_ in ("example", "extra.example", "Roaming.Example"):
+                    for aid_ in (4, 3):
+                        case = {"cls": k.__name__, "spec": spec, "removed": [], "realm": realm_, "app_id": aid_,
+                                "sender_host": sender, "layout": 4}
+                        res = evaluate(case)
+                        res.classes.append("extra-realms-grid")
+                        record(rec, case, res)
+        hyp.run_given(full_spec_strategy(k), xbody, 1, derive_seed(PID, "xr", k.__name__), rec=rec)
+
     n = int((6000 if thorough else 400) * scale)
 
     @st.composite
@@ -461,7 +475,7 @@ def run(tier, scale=1.0):
     rec = Recorder(PID)
     for d in hyp.pool_run(shard_main, (tier, scale)):
         rec.merge(d)
-    required = {"with-earlier-requests": 1, "earlier-delivery-of-same-app-id": 1, "sender:overlapping-reconnect": 1, "t-flag:new-request": 1, "sender:awaiting-dwa": 1, "sender:outbound-respelled": 1, "layout:mixed-case-realm": 1, "expect:deliver": 1, "expect:5005": 1, "expect:3003": 1, "expect:3007": 1, "handler:raise": 1,
+    required = {"layout:two-peers-extra-realms": 1, "with-earlier-requests": 1, "earlier-delivery-of-same-app-id": 1, "sender:overlapping-reconnect": 1, "t-flag:new-request": 1, "sender:awaiting-dwa": 1, "sender:outbound-respelled": 1, "layout:mixed-case-realm": 1, "expect:deliver": 1, "expect:5005": 1, "expect:3003": 1, "expect:3007": 1, "handler:raise": 1,
                 "layout:same-id-two-peers": 1, "layout:three-apps": 1, "app:threading": 1, "removed:2": 1}
     return finish(rec, tier=tier, level="exploration", rule=RULE, assumptions=ASSUME, t0=t0,
                   required_classes=required,
